@@ -189,7 +189,9 @@ func init() {
 				}
 				pid, pol := c.policy(ops)
 				for _, d := range []string{"<a href=\"http://x.com/\">t</a>", "<a href=\"/rel\">t</a>", "<a target=\"_blank\" href=\"/r\">t</a>",
-					"<a rel=\"author\" href=\"http://x.com/\" target=\"_self\">t</a>", "<a rel=\"author\" target=\"_blank\" href=\"http://x.com/\">t</a>", "<a href=\"/r\" rel=\"x\" target=\"_BLANK\">t</a>", "<img src=\"javascript:alert(1)\"><video src=\"vbscript:x\">v</video><link href=\"javascript:x\">", "<area href=\"http://x.com/\"><link href=\"http://x.com/\" crossorigin=\"x\">"} {
+					"<a rel=\"author\" href=\"http://x.com/\" target=\"_self\">t</a>", "<a rel=\"author\" target=\"_blank\" href=\"http://x.com/\">t</a>", "<a href=\"/r\" rel=\"x\" target=\"_BLANK\">t</a>", "<img src=\"javascript:alert(1)\"><video src=\"vbscript:x\">v</video><link href=\"javascript:x\">", "<area href=\"http://x.com/\"><link href=\"http://x.com/\" crossorigin=\"x\">",
+					// hrefs the URL check trims: what decides "fully qualified" must be the value that is emitted
+					"<a href=\" http://x.com/\">t</a>", "<a href=\"http://x.com/ \">t</a><area href=\"\thttp://x.com/\">", "<a href=\"&#10;http://x.com/\" rel=\"author\">t</a>", "<a href=\" /rel \" target=\"_blank\">t</a>"} {
 					emit(pid, pol, []byte(d))
 				}
 				// every rel value of the pool (tokens of which a link type is a prefix or a suffix, other
@@ -205,6 +207,21 @@ func init() {
 		}
 		sandboxCases(c, emit)
 		directedSchemes(c, emit)
+		// inline styles through default handlers and matchers: what the first pass writes must be what the
+		// second pass keeps (priorities, repeated priorities, escapes, case, spacing, empty and broken declarations)
+		for si, sops := range [][]*bmx.Op{
+			{{Kind: "AS", Names: []string{"color", "width", "float", "font-family", "text-align"}, Scope: "G"}},
+			{{Kind: "AS", Names: []string{"color", "width"}, Scope: "E", ScopeEl: []string{"b"}}, {Kind: "AS", Names: []string{"float"}, Re: bmx.NewRE(`^[a-z !]+$`), Scope: "G"}},
+			{{Kind: "AS", Names: []string{"color", "width", "float"}, Scope: "M", ScopeRe: bmx.NewRE(`^(b|i)$`)}},
+		} {
+			ops := append([]*bmx.Op{{Kind: "AE", Names: []string{"b", "i"}}, {Kind: "AA", Names: []string{"style"}, Scope: "G"}}, sops...)
+			pid, pol := c.policy(ops)
+			for _, st := range []string{"color: red !important !important", "color: red !important", "color: red ! important; width: 10px!important", "COLOR: RED; Width: 10PX", "color:red;;width:10px;", "color: r\\65 d; width: 1\\30 px",
+				"float: left !important !important !important", "color: red; width: 10px !important !important; float: none", "color: red /*c*/; width: /**/10px", "font-family: 'a b', serif; text-align: center !important", "color : red ; width : 10px", "color: red; width"} {
+				emit(pid, pol, []byte("<b style=\""+st+"\">t</b><i style=\""+st+"\">u</i>"))
+			}
+			_ = si
+		}
 		// escaping makes tokens grow: very long runs of characters that need escaping, twice
 		for _, name := range []string{"@STRICT", "@UGC"} {
 			pid, pol := c.shipped(name)
